@@ -394,6 +394,12 @@ class Inliner:
                 tn = ast.Name(id=t, ctx=ast.Load())
                 test = ast.copy_location(ast.UnaryOp(op=ast.Not(), operand=tn), s.test) if neg else tn
                 return r + [ast.copy_location(ast.If(test=test, body=s.body, orelse=s.orelse), s)]
+        if isinstance(s, ast.For):
+            t = fresh("_iter")
+            r = try_call(s.iter, t)
+            if r is not None:
+                s.iter = ast.copy_location(ast.Name(id=t, ctx=ast.Load()), s.iter)
+                return r + [s]
         # a helper call nested one level inside the value: hoist it when it is evaluated first
         val = None
         if isinstance(s, (ast.Assign, ast.AugAssign, ast.Return, ast.Expr)) and getattr(s, "value", None) is not None:
